@@ -85,21 +85,21 @@ Print Assumptions c14_ends_idle.
     received ++ queued ++ not-yet-put is the put sequence, and once drained the consumer holds exactly the bytes
     put, in order. *)
 Theorem c14_no_byte_lost : forall (policy : full_policy), policy = Blocks -> forall (bytes : list N) (trace : list actor),
-  let st := qrun policy C.bitstream_queue_capacity bytes trace in
+  let st := qrun policy ConstsModulator.bitstream_queue_capacity bytes trace in
   delivered st ++ snd (fst st) ++ fst (fst st) = bytes /\ (drained st -> delivered st = bytes).
-Proof. exact (no_byte_lost C.bitstream_queue_capacity). Qed.
+Proof. exact (no_byte_lost ConstsModulator.bitstream_queue_capacity). Qed.
 Print Assumptions c14_no_byte_lost.
 
 (** no deadlock, and every step of a runnable thread reduces the remaining work (so any schedule that keeps
     running a runnable thread drains within 2 |bytes| steps) *)
-Theorem c14_queue_progress : forall (policy : full_policy) (st : qstate), (length (snd (fst st)) <= C.bitstream_queue_capacity)%nat ->
-  ~ drained st -> can_run policy C.bitstream_queue_capacity st Producer = true \/ can_run policy C.bitstream_queue_capacity st Consumer = true.
-Proof. exact (fun policy st => progress C.bitstream_queue_capacity policy st (Nat.lt_0_succ 95)). Qed.
+Theorem c14_queue_progress : forall (policy : full_policy) (st : qstate), (length (snd (fst st)) <= ConstsModulator.bitstream_queue_capacity)%nat ->
+  ~ drained st -> can_run policy ConstsModulator.bitstream_queue_capacity st Producer = true \/ can_run policy ConstsModulator.bitstream_queue_capacity st Consumer = true.
+Proof. exact (fun policy st => progress ConstsModulator.bitstream_queue_capacity policy st (Nat.lt_0_succ 95)). Qed.
 Print Assumptions c14_queue_progress.
 
 Theorem c14_queue_productive : forall (policy : full_policy) (st : qstate) (a : actor),
-  can_run policy C.bitstream_queue_capacity st a = true -> (work (qstep policy C.bitstream_queue_capacity st a) < work st)%nat.
-Proof. exact (productive C.bitstream_queue_capacity). Qed.
+  can_run policy ConstsModulator.bitstream_queue_capacity st a = true -> (work (qstep policy ConstsModulator.bitstream_queue_capacity st a) < work st)%nat.
+Proof. exact (productive ConstsModulator.bitstream_queue_capacity). Qed.
 Print Assumptions c14_queue_productive.
 
 (** the assumption is necessary: with a put that returns false on a full queue (queue.h before 5bc9c51) 97
